@@ -1,6 +1,7 @@
 (* C20 -- Binding handshakes: every wait ends cleanly.  Statements only. *)
-From Coq Require Import List Bool Arith.
-From RV Require Import M_Bind P_Bind M_BindAttempts P_BindAttempts.
+From Coq Require Import List Bool Arith ZArith.
+From RV Require Import GenConsts M_Bind P_Bind M_BindAttempts P_BindAttempts.
+Local Open Scope nat_scope.
 Import ListNotations.
 
 (* for EVERY history (any instants, any events in any order, repeats, with or without a state timer):
@@ -76,3 +77,11 @@ Proof. exact right_order_witness. Qed.
 Theorem C20_early_match_not_lost : forall hst others, (forall e, In e others -> e = EOther \/ e = EMatch) ->
   b_w (fst (run true hst [EMatch :: others; [EStart]])) = Done OkMsg /\ b_ctx (fst (run true hst [EMatch :: others; [EStart]])) = CNext.
 Proof. exact early_match_not_lost. Qed.
+
+(* "within its stated waits": the waits the context methods default to and the state methods fall back to (re-read from the source on every
+   run) are the stated ones -- a respondent listens 5 s for an offer and, once its accept is sent, 3 s for the confirm (3 s more for optional
+   addenda); a supplicant waits 5 s for the accept *)
+Theorem C20_waits_as_stated :
+  BIND_OFFER_WAIT_us = 5000000%Z /\ BIND_CONFIRM_WAIT_us = 3000000%Z /\ BIND_ADDENDA_WAIT_us = 3000000%Z /\ BIND_ACCEPT_WAIT_us = 5000000%Z /\
+  BIND_TENDER_WAIT_TIME_us = 5000000%Z /\ BIND_AFFIRM_WAIT_TIME_us = 3000000%Z /\ BIND_RATIFY_WAIT_TIME_us = 3000000%Z /\ BIND_ACCEPT_WAIT_TIME_us = 5000000%Z.
+Proof. repeat split; reflexivity. Qed.
